@@ -71,6 +71,7 @@ pub mod verif {
     pub use crate::braille::verif_last_braille;
     pub use crate::canonicalize::verif_number_patterns;
     pub use crate::speech::verif_take_join_log;
+    pub use crate::prefs::verif_rule_files;
 }
 
 #[cfg(test)]
